@@ -70,6 +70,15 @@ func (g *agg) absorb(a, b *runOutcome) {
 	g.workers += len(a.finals) + len(b.finals)
 }
 
+// absorbExtra adds the requests of an additional comparison pass.
+func (g *agg) absorbExtra(o *runOutcome) {
+	for _, r := range o.results {
+		g.runsB++
+		g.requests += r.Stats.Requests
+	}
+	g.workers += len(o.finals)
+}
+
 func (c *checker) writeEvidence() {
 	if os.Getenv("DST_EVIDENCE") == "0" {
 		return // sensitivity runs against deliberately broken trees must not overwrite evidence
@@ -119,6 +128,7 @@ func (c *checker) writeEvidence() {
 		"reach_cells":                 cellCount,
 		"cross_process_plans_checked": c.crossChecked,
 		"cross_process_mismatches":    c.crossMismatch,
+		"plans_rerun_each_in_a_fresh_process": c.freshChecked,
 		"node_deaths":                 c.deaths,
 		"minimiser_candidate_runs":    c.minimiseRuns,
 		"known_findings_hit":          c.knownHits,
